@@ -66,7 +66,7 @@ def build_daemon_native(repo):
     return os.path.join(BUILD, "dnative_target", "release")
 
 
-DAEMON_PROGS = {"naksplit_bounded", "transport_bounded"}
+DAEMON_PROGS = {"naksplit_bounded", "transport_bounded", "recvreq_bounded"}
 
 
 def run_native(prog, args, repo, timeout=900):
@@ -124,10 +124,16 @@ def replay(ds, repo):
         if d.get("native"):
             if d["program"] == "naksplit_bounded":
                 nrc, out = run_native(d["program"], ["replay", d.get("naks", "")], repo)
+            elif d["program"] == "recvreq_bounded":
+                nrc, out = run_native(d["program"], ["replay", d.get("requests", "")], repo)
             elif d["program"] == "transport_bounded":
                 nrc, out = run_native(d["program"], ["replay", d.get("first", ""), d.get("second", "")], repo)
             elif d["program"] == "roundtrip_bounded":
                 nrc, out = run_native(d["program"], ["replay", str(d.get("case", 0)), d.get("tier", "quick")], repo)
+            elif d["program"] == "fsreq_bounded":
+                extra = (d.get("setup") or "").split(" ")
+                extra = (extra + ["", "", ""])[:3] if d.get("setup") else []
+                nrc, out = run_native(d["program"], ["replay", "@SANDBOX@", d.get("action", ""), d.get("first", ""), d.get("second", "")] + extra, repo)
             elif d["program"] == "paths_bounded":
                 nrc, out = run_native(d["program"], ["replay", "@SANDBOX@", d.get("op", ""), d.get("name", ""), d.get("name2", "")], repo)
             elif d["program"] == "checksum_bounded":
